@@ -16,6 +16,14 @@ timeout 600 /venv/bin/python -W ignore $SRC/demo.py > $OUT/demo_changed.log 2>&1
 timeout 3000 /venv/bin/python -m pytest -q -p no:cacheprovider --timeout=900 --continue-on-collection-errors --junitxml=$OUT/suite.xml > $OUT/suite.log 2>&1
 python3 /verif/harness/suite_cmp.py $OUT/suite.xml > $OUT/suite_cmp.txt 2>&1; C=$?
 cp $SRC/patch.diff $SRC/demo.py $OUT/
+[ -f $SRC/meta.json ] && cp $SRC/meta.json $OUT/meta_agent.json
+# run our check against the changed tree (evidence written by this run is NOT kept: it is re-generated on /repo later)
+if [ -f /verif/harness/$(echo $PROP | tr A-Z a-z).py ]; then
+  (cd /verif && VERIF_REPO=$WT timeout 3600 ./check $PROP --tier quick > $OUT/check.log 2>&1; echo "check_exit=$?" >> $OUT/check.log)
+  grep -E "^VIOLATION|^KNOWN-FINDING|check_exit|^\[$PROP\]" $OUT/check.log > $OUT/check_summary.txt
+  mkdir -p $OUT/replays; for r in $(grep -o "replay=[^ ]*" $OUT/check.log | cut -d= -f2); do cp $r $OUT/replays/ 2>/dev/null; done
+  tail -c 4000 $OUT/check.log > $OUT/check_tail.log; rm -f $OUT/check.log
+fi
 tail -c 3000 $OUT/suite.log > $OUT/suite_tail.log; rm -f $OUT/suite.log $OUT/suite.xml
 cd /; git -C /repo worktree remove --force $WT
 echo "demo_unchanged_exit=$A demo_changed_exit=$B suite_stable_missing_exit=$C" | tee $OUT/confirm.txt
